@@ -1060,6 +1060,281 @@ theorem replaced_spec {s : CellStore} (h : CellInv s) {cell : Int} (hv : s.valid
     rw [hfirst w, count_ite_cons, count_ite_erase])
   exact ⟨hok1, hok2, hinv, hval, hnodes, hfirst⟩
 
+
+/-! ### `ref_cell_replace_node` -/
+
+/-- substitute `old ↦ new` in the node entries `k ≤ j < node_per` of a row -/
+def substFrom (np : Nat) (old new : Int) (k : Nat) (r : List Int) : List Int :=
+  r.mapIdx fun j v => if k ≤ j ∧ j < np ∧ v = old then new else v
+
+/-- substitute `old ↦ new` in the node entries of a row (the id entry is left alone) -/
+def substRow (np : Nat) (old new : Int) (r : List Int) : List Int := substFrom np old new 0 r
+
+theorem substFrom_set_hit {np : Nat} {old new : Int} {k : Nat} {r : List Int} (hk : k < r.length)
+    (hnp : k < np) (hget : r.getD k (-1) = old) :
+    substFrom np old new (k + 1) (r.set k new) = substFrom np old new k r := by
+  apply List.ext_getElem?
+  intro j
+  simp only [substFrom, List.getElem?_mapIdx, List.getElem?_set]
+  by_cases hkj : k = j
+  · subst hkj
+    have hr : r[k]? = some old := by
+      rw [List.getElem?_eq_getElem hk]
+      rw [List.getD_eq_getElem?_getD, List.getElem?_eq_getElem hk] at hget
+      simpa using hget
+    simp only [if_true, hk, hr, Option.map_some]
+    have h1 : ¬ (k + 1 ≤ k) := by omega
+    simp [h1, hnp]
+  · simp only [hkj, if_false]
+    cases hr : r[j]? with
+    | none => rfl
+    | some v =>
+      simp only [Option.map_some]
+      have : (k + 1 ≤ j) ↔ (k ≤ j) := by omega
+      simp only [this]
+
+theorem substFrom_skip {np : Nat} {old new : Int} {k : Nat} {r : List Int}
+    (hget : r.getD k (-1) ≠ old ∨ r.length ≤ k) :
+    substFrom np old new (k + 1) r = substFrom np old new k r := by
+  apply List.ext_getElem?
+  intro j
+  simp only [substFrom, List.getElem?_mapIdx]
+  cases hr : r[j]? with
+  | none => rfl
+  | some v =>
+    simp only [Option.map_some]
+    by_cases hkj : k = j
+    · subst hkj
+      have hlen : k < r.length := (List.getElem?_eq_some_iff.1 hr).1
+      have hv : v ≠ old := by
+        rcases hget with h | h
+        · rw [List.getD_eq_getElem?_getD, hr] at h; simpa using h
+        · omega
+      simp [hv]
+    · have : (k + 1 ≤ j) ↔ (k ≤ j) := by omega
+      simp only [this]
+
+theorem substFrom_top {np : Nat} {old new : Int} {k : Nat} {r : List Int} (h : np ≤ k) :
+    substFrom np old new k r = r := by
+  apply List.ext_getElem?
+  intro j
+  simp only [substFrom, List.getElem?_mapIdx]
+  cases hr : r[j]? with
+  | none => rfl
+  | some v =>
+    have : ¬ (k ≤ j ∧ j < np ∧ v = old) := by omega
+    simp [this]
+
+/-- same static shape and same set of valid cells -/
+structure SameShape (r s : CellStore) : Prop where
+  np : r.nodePer = s.nodePer
+  sp : r.sizePer = s.sizePer
+  blank : r.blank = s.blank
+  n : r.n = s.n
+  e2n : r.e2n = s.e2n
+  max : r.max = s.max
+  valid : ∀ c, r.validCell c = s.validCell c
+
+theorem SameShape.refl (s : CellStore) : SameShape s s := ⟨rfl, rfl, rfl, rfl, rfl, rfl, fun _ => rfl⟩
+
+theorem SameShape.trans {a b c : CellStore} (h1 : SameShape a b) (h2 : SameShape b c) : SameShape a c :=
+  ⟨h1.np.trans h2.np, h1.sp.trans h2.sp, h1.blank.trans h2.blank, h1.n.trans h2.n, h1.e2n.trans h2.e2n,
+    h1.max.trans h2.max, fun c => (h1.valid c).trans (h2.valid c)⟩
+
+theorem replaced_shape {s : CellStore} (h : CellInv s) {cell : Int} (hv : s.validCell cell = true)
+    {k : Nat} (hk : k < s.nodePer) {new : Int} (hnew : 0 ≤ new) :
+    SameShape (replaced s cell k new) s ∧
+      (∀ c, c ≠ cell.toNat → (replaced s cell k new).row c = s.row c) ∧
+      (replaced s cell k new).row cell.toNat = (s.row cell.toNat).set k new := by
+  obtain ⟨_, _, _, hval, _, _⟩ := replaced_spec h hv hk hnew
+  obtain ⟨h0, hlt, _⟩ := validCell_iff.1 hv
+  refine ⟨⟨rfl, rfl, rfl, rfl, rfl, by simp [replaced, CellStore.max], ?_⟩, ?_, ?_⟩
+  · intro c
+    by_cases hc : c = cell
+    · subst hc; rw [hval, hv]
+    · exact validCell_set_ne (t := replaced s cell k new) (s := s) rfl (by omega)
+  · intro c hc
+    simp only [replaced, row, getD_rows_set_ne hc]
+  · simp only [replaced, row]
+    exact getD_rows_set_self hlt
+
+theorem replaceInCell_spec {cell old new : Int} (hon : old ≠ new) (hnew : 0 ≤ new) :
+    ∀ (todo k : Nat) (s : CellStore), CellInv s → s.validCell cell = true → k + todo = s.nodePer →
+      ∃ r, replaceInCell s cell old new todo k = (.ok, r) ∧ CellInv r ∧ SameShape r s ∧
+        (∀ c, c ≠ cell.toNat → r.row c = s.row c) ∧
+        r.row cell.toNat = substFrom s.nodePer old new k (s.row cell.toNat) ∧
+        (r.adj.first old).length + ((s.cellNodes cell).drop k).count old = (s.adj.first old).length := by
+  intro todo
+  induction todo with
+  | zero =>
+    intro k s h hv hk
+    refine ⟨s, rfl, h, SameShape.refl s, fun _ _ => rfl, (substFrom_top (by omega)).symm, ?_⟩
+    have : (s.cellNodes cell).drop k = [] := by
+      apply List.drop_eq_nil_of_le
+      rw [cellNodes_length h hv]; omega
+    simp [this]
+  | succ todo ih =>
+    intro k s h hv hk
+    have hklt : k < s.nodePer := by omega
+    obtain ⟨hk', hget⟩ := cellNodes_getElem h hv hklt
+    obtain ⟨_, hlt, _⟩ := validCell_iff.1 hv
+    have hrl := row_length h hlt
+    have hkr : k < (s.row cell.toNat).length := by have := h.per.2.1; omega
+    have hdrop : (s.cellNodes cell).drop k = s.c2nAt k cell.toNat :: (s.cellNodes cell).drop (k + 1) := by
+      rw [List.drop_eq_getElem_cons hk', hget]
+    by_cases hold : old = s.c2nAt k cell.toNat
+    · obtain ⟨hok1, hok2, hinv', hval', hnodes', hfirst'⟩ := replaced_spec h hv hklt hnew
+      obtain ⟨hshape', hrows', hrow'⟩ := replaced_shape h hv hklt hnew
+      have hstep : replaceInCell s cell old new (todo + 1) k =
+          replaceInCell (replaced s cell k new) cell old new todo (k + 1) := by
+        subst hold
+        simp only [replaceInCell, if_true, hok1, hok2, ne_eq, not_true_eq_false, if_false]
+        rfl
+      obtain ⟨r, hr, hrinv, hrshape, hrrows, hrrow, hrlen⟩ :=
+        ih (k + 1) (replaced s cell k new) hinv' hval' (by rw [hshape'.np]; omega)
+      refine ⟨r, by rw [hstep]; exact hr, hrinv, hrshape.trans hshape', ?_, ?_, ?_⟩
+      · intro c hc; rw [hrrows c hc, hrows' c hc]
+      · rw [hrrow, hrow', hshape'.np]
+        exact substFrom_set_hit hkr hklt (by simp only [c2nAt] at hold; exact hold.symm)
+      · rw [hnodes', List.drop_set_of_lt (show k < k + 1 by omega)] at hrlen
+        have hmem : cell ∈ s.adj.first old := by
+          rw [hold]
+          exact (mem_first_iff h).2 ⟨hv, by rw [← hget]; exact List.getElem_mem hk'⟩
+        have hfo : (replaced s cell k new).adj.first old = (s.adj.first old).erase cell := by
+          rw [hfirst' old, if_neg hon, if_pos hold]
+        rw [hfo, List.length_erase_of_mem hmem] at hrlen
+        have hpos : 0 < (s.adj.first old).length := List.length_pos_of_mem hmem
+        rw [hdrop, ← hold, List.count_cons_self]
+        omega
+    · have hstep : replaceInCell s cell old new (todo + 1) k = replaceInCell s cell old new todo (k + 1) := by
+        simp only [replaceInCell, hold, if_false]
+      obtain ⟨r, hr, hrinv, hrshape, hrrows, hrrow, hrlen⟩ := ih (k + 1) s h hv (by omega)
+      refine ⟨r, by rw [hstep]; exact hr, hrinv, hrshape, hrrows, ?_, ?_⟩
+      · rw [hrrow]
+        exact substFrom_skip (Or.inl (by simp only [c2nAt] at hold; exact fun e => hold e.symm))
+      · rw [hdrop, List.count_cons_of_ne (fun e => hold e.symm)]
+        exact hrlen
+
+
+theorem substRow_idem {np : Nat} {old new : Int} (hon : old ≠ new) (r : List Int) :
+    substRow np old new (substRow np old new r) = substRow np old new r := by
+  apply List.ext_getElem?
+  intro j
+  simp only [substRow, substFrom, List.getElem?_mapIdx]
+  cases hr : r[j]? with
+  | none => rfl
+  | some v =>
+    simp only [Option.map_some, Nat.zero_le, true_and]
+    by_cases h : j < np ∧ v = old
+    · have : ¬ (new = old) := fun e => hon e.symm
+      simp [h, this]
+    · simp [h]
+
+theorem substRow_of_not_mem {np : Nat} {old new : Int} {r : List Int} (h : old ∉ r.take np) :
+    substRow np old new r = r := by
+  apply List.ext_getElem?
+  intro j
+  simp only [substRow, substFrom, List.getElem?_mapIdx]
+  cases hr : r[j]? with
+  | none => rfl
+  | some v =>
+    simp only [Option.map_some, Nat.zero_le, true_and]
+    obtain ⟨hj, hv⟩ := List.getElem?_eq_some_iff.1 hr
+    have : ¬ (j < np ∧ v = old) := by
+      rintro ⟨h1, h2⟩
+      apply h
+      rw [List.mem_take_iff_getElem]
+      exact ⟨j, by rw [Nat.lt_min]; exact ⟨h1, hj⟩, by rw [hv, h2]⟩
+    simp [this]
+
+theorem substRow_self {np : Nat} {old : Int} (r : List Int) : substRow np old old r = r := by
+  apply List.ext_getElem?
+  intro j
+  simp only [substRow, substFrom, List.getElem?_mapIdx]
+  cases hr : r[j]? with
+  | none => rfl
+  | some v =>
+    simp only [Option.map_some, Nat.zero_le, true_and]
+    by_cases h : j < np ∧ v = old
+    · simp [h]
+    · simp [h]
+
+theorem replaceNodeLoop_spec {old new : Int} (hon : old ≠ new) (hnew : 0 ≤ new) :
+    ∀ (fuel : Nat) (s : CellStore), CellInv s → (s.adj.first old).length ≤ fuel →
+      ∃ r, replaceNodeLoop old new fuel s = some (.ok, r) ∧ CellInv r ∧ SameShape r s ∧
+        r.adj.first old = [] ∧
+        ∀ c : Nat, substRow s.nodePer old new (r.row c) = substRow s.nodePer old new (s.row c) ∧
+          (s.validCell (c : Int) = false → r.row c = s.row c) := by
+  intro fuel
+  induction fuel with
+  | zero =>
+    intro s h hlen
+    have hnil : s.adj.first old = [] := List.length_eq_zero_iff.1 (by omega)
+    exact ⟨s, by simp [replaceNodeLoop, hnil], h, SameShape.refl s, hnil, fun c => ⟨rfl, fun _ => rfl⟩⟩
+  | succ fuel ih =>
+    intro s h hlen
+    cases hl : s.adj.first old with
+    | nil =>
+      exact ⟨s, by simp [replaceNodeLoop, hl], h, SameShape.refl s, hl, fun c => ⟨rfl, fun _ => rfl⟩⟩
+    | cons cell rest =>
+      have hmem : cell ∈ s.adj.first old := by rw [hl]; simp
+      obtain ⟨hv, hin⟩ := (mem_first_iff h).1 hmem
+      obtain ⟨h0, _, _⟩ := validCell_iff.1 hv
+      obtain ⟨r1, hr1, hinv1, hshape1, hrows1, hrow1, hlen1⟩ :=
+        replaceInCell_spec hon hnew s.nodePer 0 s h hv (by omega)
+      have hcnt : 0 < (s.cellNodes cell).count old := List.count_pos_iff.2 hin
+      rw [List.drop_zero] at hlen1
+      obtain ⟨r, hr, hrinv, hrshape, hrnil, hrrel⟩ := ih r1 hinv1 (by omega)
+      refine ⟨r, ?_, hrinv, hrshape.trans hshape1, hrnil, ?_⟩
+      · simp only [replaceNodeLoop, hl, hr1, ne_eq, not_true_eq_false, if_false]
+        exact hr
+      · intro c
+        obtain ⟨hc1, hc2⟩ := hrrel c
+        rw [hshape1.np] at hc1
+        by_cases hcc : c = cell.toNat
+        · subst hcc
+          refine ⟨?_, ?_⟩
+          · rw [hc1, hrow1, ← substRow]
+            exact substRow_idem hon _
+          · intro hf
+            have : ((cell.toNat : Nat) : Int) = cell := by omega
+            rw [this, hv] at hf
+            exact absurd hf (by simp)
+        · rw [hrows1 c hcc] at hc1
+          refine ⟨hc1, ?_⟩
+          intro hf
+          rw [hc2 (by rw [hshape1.valid]; exact hf), hrows1 c hcc]
+
+/-- `ref_cell_replace_node` terminates (the fuel of the model's loop, the length of `old`'s adjacency
+    list, is never exhausted) and equals "substitute `old ↦ new` in the node entries of every valid cell" -/
+theorem replaceNode_spec {s : CellStore} (h : CellInv s) (old : Int) {new : Int} (hnew : 0 ≤ new) :
+    ∃ r, s.replaceNode old new = some (.ok, r) ∧ CellInv r ∧ SameShape r s ∧
+      ∀ c : Nat, r.row c =
+        if s.validCell (c : Int) = true then substRow s.nodePer old new (s.row c) else s.row c := by
+  by_cases hon : old = new
+  · subst hon
+    refine ⟨s, by simp [replaceNode], h, SameShape.refl s, ?_⟩
+    intro c; split
+    · exact (substRow_self _).symm
+    · rfl
+  · obtain ⟨r, hr, hrinv, hrshape, hrnil, hrrel⟩ :=
+      replaceNodeLoop_spec hon hnew (s.adj.first old).length s h (Nat.le_refl _)
+    refine ⟨r, by simp only [replaceNode, hon, if_false]; exact hr, hrinv, hrshape, ?_⟩
+    intro c
+    obtain ⟨hc1, hc2⟩ := hrrel c
+    split
+    · rename_i hv
+      have hvr : r.validCell (c : Int) = true := by rw [hrshape.valid]; exact hv
+      have hnot : old ∉ r.cellNodes (c : Int) := by
+        intro hm
+        have := (mem_first_iff hrinv).2 ⟨hvr, hm⟩
+        rw [hrnil] at this
+        simp at this
+      simp only [cellNodes, Int.toNat_natCast, hrshape.np] at hnot
+      rw [← hc1, substRow_of_not_mem hnot]
+    · rename_i hv
+      exact hc2 (by simpa using hv)
+
 end CellStore
 
 end Refine.Model.CellStore
